@@ -544,11 +544,7 @@ def _format_index(index_statistics):
             nullable=properties["nullable"],
             unique=properties["unique"],
             coerce=properties["coerce"],
-            name=(
-                "None"
-                if properties["name"] is None
-                else f"\"{properties['name']}\""
-            ),
+            name=properties["name"].__repr__(),
             description=(None if description is None else f'"{description}"'),
             title=(None if title is None else f'"{title}"'),
         )
